@@ -81,7 +81,22 @@ def case_class(row):
                 src=(row.get("src") or "tlc").split(":")[0])
 
 
-def validate(v, trace, sig_fn, what, heap="6g", workers=8, timeout=1500):
+def _original_case(case_files, row):
+    """the TLC case as exported (macros unexpanded): the driver numbers the cases in input order"""
+    if not case_files or (row.get("src") or "") != "tlc":
+        return None
+    n = row["id"]
+    for f in case_files:
+        with open(f) as fh:
+            for ln in fh:
+                if ln.strip():
+                    n -= 1
+                    if n == 0:
+                        return json.loads(ln)
+    return None
+
+
+def validate(v, trace, sig_fn, what, heap="6g", workers=8, timeout=1500, case_files=None):
     """TLC (TraceAmmoFormats) over the recorded cases; every violated line -> v.violation, grouped by
     signature (first example of each signature kept as replay file).  Returns (lines, trace states)."""
     rows = vlib.read_ndjson(trace)
@@ -107,17 +122,18 @@ def validate(v, trace, sig_fn, what, heap="6g", workers=8, timeout=1500):
         v.violation(sig, "%s: %d case(s); first: %s -> built=%s delivered %d, ended=%s, Run outcome=%s %s; invariant %s of "
                     "TraceAmmoFormats fails" % (what, len(lst), json.dumps(brief_case(row)), o["built"], len(o["deliv"]),
                                                  o["ended"], o["outcome"], ("(" + o["err"] + ")") if o["err"] else "", inv),
-                    replay_obj={"invariant": inv, "case": row, "cases_with_this_signature": len(lst)},
+                    replay_obj={"invariant": inv, "case": row, "case_input": _original_case(case_files, row),
+                                "cases_with_this_signature": len(lst)},
                     replay_name="case_%s.json" % "".join(ch if ch.isalnum() else "_" for ch in sig)[:120])
     return rows, tr.distinct, len(seen)
 
 
 def replay_case(path, v, sig_fn, what):
     obj = json.load(open(path))
-    case = dict(obj["case"])
+    case = dict(obj.get("case_input") or obj["case"])
     case.pop("obs", None)
-    if (case.get("src") or "tlc") != "tlc" and any(i["k"] == "E" and i["e"]["body"].startswith("len") for i in case["items"]):
-        print("random case with long bodies: re-run the check with the same VERIF_SEED (%s)" % case.get("src"))
+    if not obj.get("case_input") and ":sha256:" in json.dumps(case["items"]):
+        print("case with long strings/bodies recorded as digests: re-run the check with the same VERIF_SEED (%s)" % case.get("src"))
         return None
     d = vlib.scratch()
     cf = os.path.join(d, "case.ndjson")
